@@ -248,8 +248,25 @@ theorem lift_error_aux (f : LeafFn) : ∀ n, ∀ (v : Val), sizeOf v ≤ n → v
 
 /-! ### companions without a matching container are passed whole -/
 
-theorem itemByI_no_match (i n : Nat) : ∀ m, ∀ (c : Val), sizeOf c ≤ m →
-    (∀ q cs, (c.at q = some (.list cs) ∨ c.at q = some (.tuple cs)) → cs.length ≠ n) →
+/-- a path of index steps only: it can only run through lists and tuples (what `_item_by_i` descends through) -/
+def IdxPath (q : Path) : Prop := ∀ s ∈ q, ∃ i, s = Step.idx i
+theorem IdxPath.nil : IdxPath [] := by intro s hs; cases hs
+theorem IdxPath.cons (j : Nat) {q : Path} (h : IdxPath q) : IdxPath (.idx j :: q) := by
+  intro s hs
+  rcases List.mem_cons.1 hs with rfl | hs
+  · exact ⟨j, rfl⟩
+  · exact h s hs
+/-- a path of key steps only: it can only run through dict values (what `_item_by_key` descends through) -/
+def KeyPath (q : Path) : Prop := ∀ s ∈ q, ∃ k, s = Step.key k
+theorem KeyPath.nil : KeyPath [] := by intro s hs; cases hs
+theorem KeyPath.cons (k : String) {q : Path} (h : KeyPath q) : KeyPath (.key k :: q) := by
+  intro s hs
+  rcases List.mem_cons.1 hs with rfl | hs
+  · exact ⟨k, rfl⟩
+  · exact h s hs
+
+theorem itemByI_no_match_seq (i n : Nat) : ∀ m, ∀ (c : Val), sizeOf c ≤ m →
+    (∀ q cs, IdxPath q → (c.at q = some (.list cs) ∨ c.at q = some (.tuple cs)) → cs.length ≠ n) →
     itemByI i n c = c := by
   intro m
   induction m with
@@ -257,7 +274,7 @@ theorem itemByI_no_match (i n : Nat) : ∀ m, ∀ (c : Val), sizeOf c ≤ m →
   | succ m ih =>
     intro c hs h
     have helem : ∀ (cs : List Val), (∀ x ∈ cs, sizeOf x ≤ m) →
-        (∀ (j : Nat) (x : Val), cs[j]? = some x → ∀ (q : Path) (ds : List Val),
+        (∀ (j : Nat) (x : Val), cs[j]? = some x → ∀ (q : Path) (ds : List Val), IdxPath q →
           (x.at q = some (.list ds) ∨ x.at q = some (.tuple ds)) → ds.length ≠ n) →
         cs.map (itemByI i n) = cs := by
       intro cs hsz hq
@@ -270,29 +287,34 @@ theorem itemByI_no_match (i n : Nat) : ∀ m, ∀ (c : Val), sizeOf c ≤ m →
     | cell a => simp [itemByI]
     | dict kvs => simp [itemByI]
     | list cs =>
-      have hlen : cs.length ≠ n := h [] cs (Or.inl (by simp [Val.at]))
+      have hlen : cs.length ≠ n := h [] cs IdxPath.nil (Or.inl (by simp [Val.at]))
       simp only [itemByI, hlen, ↓reduceIte, itemByIList_eq_map]
       rw [helem cs]
       · intro x hx
         have := List.sizeOf_lt_of_mem hx
         simp at hs; omega
-      · intro j x hj q ds hd
-        apply h (.idx j :: q) ds
+      · intro j x hj q ds hq hd
+        apply h (.idx j :: q) ds (IdxPath.cons j hq)
         simpa [Val.at, Val.child, hj] using hd
     | tuple cs =>
-      have hlen : cs.length ≠ n := h [] cs (Or.inr (by simp [Val.at]))
+      have hlen : cs.length ≠ n := h [] cs IdxPath.nil (Or.inr (by simp [Val.at]))
       simp only [itemByI, hlen, ↓reduceIte, itemByIList_eq_map]
       rw [helem cs]
       · intro x hx
         have := List.sizeOf_lt_of_mem hx
         simp at hs; omega
-      · intro j x hj q ds hd
-        apply h (.idx j :: q) ds
+      · intro j x hj q ds hq hd
+        apply h (.idx j :: q) ds (IdxPath.cons j hq)
         simpa [Val.at, Val.child, hj] using hd
 
 
-theorem itemByKey_no_match (k : String) (keys : List String) : ∀ m, ∀ (c : Val), sizeOf c ≤ m → c.KeysNodup →
-    (∀ q cs, c.at q = some (.dict cs) → sortStr (keysOf cs) ≠ keys) →
+theorem itemByI_no_match (i n : Nat) (m : Nat) (c : Val) (hs : sizeOf c ≤ m)
+    (h : ∀ q cs, (c.at q = some (.list cs) ∨ c.at q = some (.tuple cs)) → cs.length ≠ n) :
+    itemByI i n c = c :=
+  itemByI_no_match_seq i n m c hs (fun q cs _ hq => h q cs hq)
+
+theorem itemByKey_no_match_dict (k : String) (keys : List String) : ∀ m, ∀ (c : Val), sizeOf c ≤ m → c.KeysNodup →
+    (∀ q cs, KeyPath q → c.at q = some (.dict cs) → sortStr (keysOf cs) ≠ keys) →
     itemByKey k keys c = c := by
   intro m
   induction m with
@@ -304,7 +326,7 @@ theorem itemByKey_no_match (k : String) (keys : List String) : ∀ m, ∀ (c : V
     | list cs => simp [itemByKey]
     | tuple cs => simp [itemByKey]
     | dict kvs =>
-      have hk : sortStr (keysOf kvs) ≠ keys := h [] kvs (by simp [Val.at])
+      have hk : sortStr (keysOf kvs) ≠ keys := h [] kvs KeyPath.nil (by simp [Val.at])
       have hnd : (keysOf kvs).Nodup := hn [] kvs (by simp [Val.at])
       simp only [itemByKey, hk, ↓reduceIte, itemByKeyKVs_eq_map]
       have : ∀ kv ∈ kvs, (kv.1, itemByKey k keys kv.2) = id kv := by
@@ -312,10 +334,15 @@ theorem itemByKey_no_match (k : String) (keys : List String) : ∀ m, ∀ (c : V
         have hl := lookup_of_mem_nodup kvs kv hkv hnd
         have hc : (Val.dict kvs).child (.key kv.1) = some kv.2 := by simpa [Val.child] using hl
         have := ih kv.2 (by have := sizeOf_kv_lt hkv; simp at hs; omega) (KeysNodup_child hn hc)
-          (fun q cs hq => h (.key kv.1 :: q) cs (by simpa [Val.at, Val.child, hl] using hq))
+          (fun q cs hkq hq => h (.key kv.1 :: q) cs (KeyPath.cons kv.1 hkq) (by simpa [Val.at, Val.child, hl] using hq))
         simp [this]
       simp only [mapKW]
       rw [List.map_congr_left this, List.map_id]
+
+theorem itemByKey_no_match (k : String) (keys : List String) (m : Nat) (c : Val) (hs : sizeOf c ≤ m) (hn : c.KeysNodup)
+    (h : ∀ q cs, c.at q = some (.dict cs) → sortStr (keysOf cs) ≠ keys) :
+    itemByKey k keys c = c :=
+  itemByKey_no_match_dict k keys m c hs hn (fun q cs _ hq => h q cs hq)
 
 /-! ### `sorted(keys)` keeps the keys -/
 
@@ -438,5 +465,219 @@ theorem pos_kw_aux (f : LeafFn) (k : Nat) (name : String) (hname : name ≠ "axi
       have := sizeOf_kv_lt hx
       simp at hs
       exact ih kv.2 (by omega)
+
+
+theorem insertStr_perm (k : String) : ∀ l, (insertStr k l).Perm (k :: l)
+  | [] => by simp [insertStr]
+  | h :: t => by
+      simp only [insertStr]
+      split
+      · exact List.Perm.refl _
+      · exact ((insertStr_perm k t).cons h).trans (List.Perm.swap k h t)
+
+theorem sortStr_perm : ∀ l, (sortStr l).Perm l
+  | [] => by simp [sortStr]
+  | h :: t => by
+      simp only [sortStr]
+      exact (insertStr_perm h (sortStr t)).trans ((sortStr_perm t).cons h)
+
+/-- the code's test `sorted(value.keys()) == keys` succeeds only for the same keys (as a multiset; python keys are distinct: the same SET) -/
+theorem perm_of_sortStr_eq (a b : List String) (h : sortStr a = sortStr b) : a.Perm b :=
+  (sortStr_perm a).symm.trans (h ▸ sortStr_perm b)
+
+theorem insertStr_comm (x y : String) : ∀ l, insertStr x (insertStr y l) = insertStr y (insertStr x l)
+  | [] => by
+      simp only [insertStr]
+      by_cases h1 : x ≤ y <;> by_cases h2 : y ≤ x <;> simp only [insertStr, h1, h2, if_true, if_false]
+      · rw [String.le_antisymm h1 h2]
+      · rcases String.le_total x y with h | h <;> contradiction
+  | h :: t => by
+      simp only [insertStr]
+      by_cases hx : x ≤ h <;> by_cases hy : y ≤ h <;> simp only [hx, hy, if_true, if_false, insertStr]
+      · by_cases h1 : x ≤ y <;> by_cases h2 : y ≤ x <;> simp only [h1, h2, hx, hy, if_true, if_false]
+        · rw [String.le_antisymm h1 h2]
+        · rcases String.le_total x y with h | h <;> contradiction
+      · have h2 : ¬ y ≤ x := fun h2 => hy (String.le_trans h2 hx)
+        simp only [h2, hy, if_false]
+      · have h1 : ¬ x ≤ y := fun h1 => hx (String.le_trans h1 hy)
+        simp only [h1, hx, if_false]
+      · rw [insertStr_comm x y t]
+
+theorem sortStr_eq_of_perm {a b : List String} (h : a.Perm b) : sortStr a = sortStr b := by
+  induction h with
+  | nil => rfl
+  | cons x _ ih => simp only [sortStr, ih]
+  | swap x y l => simp only [sortStr]; exact insertStr_comm y x (sortStr l)
+  | trans _ _ ih1 ih2 => exact ih1.trans ih2
+
+
+/-! ### the statement-level selection (`pickLevel`) and the class of finding K3 (`SearchedStep`) -/
+
+
+/-- is `c` a list / tuple of length `n`? -/
+def isSeqOfLen (n : Nat) : Val → Bool
+  | .list cs => cs.length == n
+  | .tuple cs => cs.length == n
+  | _ => false
+
+/-- the property statement's test at ONE level: "a container of the same length / the same keys" -/
+def levelMatch : Val → Val → Bool
+  | .list xs, c => isSeqOfLen xs.length c
+  | .tuple xs, c => isSeqOfLen xs.length c
+  | .dict kvs, .dict cs => decide ((keysOf cs).Perm (keysOf kvs))
+  | _, _ => false
+
+/-- the property statement's reading of one level of descent into child `s` of `v`: a companion that matches the level gives
+its member, everything else is passed on whole -/
+def pickLevel (v : Val) (s : Step) (c : Val) : Val := if levelMatch v c then (c.child s).getD c else c
+
+/-- … along a path (the statement-level counterpart of `select`, which follows the code) -/
+def pickAlong (v : Val) : Path → Val → Val
+  | [], c => c
+  | s :: p, c => match v.child s with
+    | some v' => pickAlong v' p (pickLevel v s c)
+    | Option.none => c
+
+/-- `c` holds, reachable through lists and tuples only, a list / tuple of length `n` -/
+def HoldsSeq (n : Nat) (c : Val) : Prop :=
+  ∃ q cs, IdxPath q ∧ (c.at q = some (.list cs) ∨ c.at q = some (.tuple cs)) ∧ cs.length = n
+
+/-- `c` holds, reachable through dict values only, a dict with the keys `keys` -/
+def HoldsDict (keys : List String) (c : Val) : Prop :=
+  ∃ q cs, KeyPath q ∧ c.at q = some (.dict cs) ∧ (keysOf cs).Perm keys
+
+/-- **the class of finding K3, at one level**: the companion does not match the level of `v` being looped (the statement:
+pass it whole) but holds a matching container further inside, where the code's search (`_item_by_i` through sequences,
+`_item_by_key` through dict values) finds it -/
+def SearchedStep (v c : Val) : Prop :=
+  levelMatch v c = false ∧
+  match v with
+  | .list xs => HoldsSeq xs.length c
+  | .tuple xs => HoldsSeq xs.length c
+  | .dict kvs => HoldsDict (keysOf kvs) c
+  | .cell _ => False
+
+/-- no level on the way down `p` is of the K3 class (the companion followed as the STATEMENT selects it) -/
+def NotSearched (v : Val) : Path → Val → Prop
+  | [], _ => True
+  | s :: p, c => ¬ SearchedStep v c ∧
+    match v.child s with
+    | some v' => NotSearched v' p (pickLevel v s c)
+    | Option.none => True
+
+theorem getIdx_ne_list (cs : List Val) (i : Nat) : getIdx cs i ≠ .list cs ∧ getIdx cs i ≠ .tuple cs := by
+  unfold getIdx
+  by_cases hi : i < cs.length
+  · have hm : cs[i] ∈ cs := List.getElem_mem hi
+    have hlt := List.sizeOf_lt_of_mem hm
+    have hg : cs.getD i (.cell .none) = cs[i] := by simp [List.getD, hi]
+    rw [hg]
+    constructor <;> intro e <;> rw [e] at hlt <;> simp at hlt <;> omega
+  · have hg : cs.getD i (.cell .none) = .cell .none := by simp [List.getD, Nat.not_lt.1 hi]
+    rw [hg]; constructor <;> intro e <;> cases e
+
+theorem itemByI_searched (i n : Nat) : ∀ (q : Path) (c : Val) (ds : List Val), IdxPath q →
+    (c.at q = some (.list ds) ∨ c.at q = some (.tuple ds)) → ds.length = n → itemByI i n c ≠ c
+  | [], c, ds, _, hq, hl => by
+      rcases hq with hq | hq <;> simp only [Val.at, Option.some.injEq] at hq <;> subst hq <;>
+        simp only [itemByI, hl, ↓reduceIte]
+      · exact (getIdx_ne_list ds i).1
+      · exact (getIdx_ne_list ds i).2
+  | s :: q, c, ds, hp, hq, hl => by
+      obtain ⟨j, rfl⟩ := hp s (by simp)
+      have hp' : IdxPath q := fun t ht => hp t (by simp [ht])
+      have key : ∀ (cs : List Val), cs[j]? = some ((cs[j]?).getD (.cell .none)) →
+          (((cs[j]?).getD (.cell .none)).at q = some (.list ds) ∨ ((cs[j]?).getD (.cell .none)).at q = some (.tuple ds)) →
+          cs.map (itemByI i n) ≠ cs := by
+        intro cs hj hx e
+        have hne := itemByI_searched i n q _ ds hp' hx hl
+        have := congrArg (fun l => l[j]?) e
+        simp only [List.getElem?_map] at this
+        rw [hj] at this
+        simp only [Option.map_some, Option.some.injEq] at this
+        exact hne this
+      cases c with
+      | cell a => rcases hq with hq | hq <;> simp [Val.at, Val.child] at hq
+      | dict kvs => rcases hq with hq | hq <;> simp [Val.at, Val.child] at hq
+      | list cs =>
+        cases hj : cs[j]? with
+        | none => rcases hq with hq | hq <;> simp [Val.at, Val.child, hj] at hq
+        | some x =>
+          by_cases hlen : cs.length = n
+          · simp only [itemByI, hlen, ↓reduceIte]; exact (getIdx_ne_list cs i).1
+          · simp only [itemByI, hlen, ↓reduceIte, itemByIList_eq_map]
+            intro e
+            simp only [Val.list.injEq] at e
+            exact key cs (by simp [hj]) (by simpa [Val.at, Val.child, hj] using hq) e
+      | tuple cs =>
+        cases hj : cs[j]? with
+        | none => rcases hq with hq | hq <;> simp [Val.at, Val.child, hj] at hq
+        | some x =>
+          by_cases hlen : cs.length = n
+          · simp only [itemByI, hlen, ↓reduceIte]; exact (getIdx_ne_list cs i).2
+          · simp only [itemByI, hlen, ↓reduceIte, itemByIList_eq_map]
+            intro e
+            simp only [Val.tuple.injEq] at e
+            exact key cs (by simp [hj]) (by simpa [Val.at, Val.child, hj] using hq) e
+
+
+theorem mem_of_lookup_some (k : String) (y : Val) : ∀ (kvs : KW), kvs.lookup k = some y → (k, y) ∈ kvs
+  | [], h => by simp at h
+  | (j, w) :: kvs, h => by
+      simp only [List.lookup_cons] at h
+      by_cases hk : k = j
+      · subst hk; simp at h; subst h; simp
+      · have : (k == j) = false := by simpa using hk
+        simp only [this] at h
+        exact List.mem_cons_of_mem _ (mem_of_lookup_some k y kvs h)
+
+theorem lookup_mapKW' (g : Val → Val) (k : String) : ∀ (kvs : KW), (mapKW g kvs).lookup k = (kvs.lookup k).map g
+  | [] => by simp [mapKW]
+  | (j, w) :: kvs => by
+      simp only [mapKW, List.map_cons, List.lookup_cons]
+      cases (k == j)
+      · exact lookup_mapKW' g k kvs
+      · rfl
+
+theorem getKey_ne_dict (cs : KW) (k : String) : getKey cs k ≠ .dict cs := by
+  unfold getKey
+  cases h : cs.lookup k with
+  | none => intro e; cases e
+  | some y =>
+    have hm := mem_of_lookup_some k y cs h
+    have hlt := sizeOf_kv_lt hm
+    intro e
+    simp only [Option.getD_some] at e
+    rw [e] at hlt
+    simp at hlt
+    omega
+
+theorem itemByKey_searched (k : String) (keys : List String) : ∀ (q : Path) (c : Val) (ds : KW), KeyPath q →
+    c.at q = some (.dict ds) → sortStr (keysOf ds) = keys → itemByKey k keys c ≠ c
+  | [], c, ds, _, hq, hl => by
+      simp only [Val.at, Option.some.injEq] at hq
+      subst hq
+      simp only [itemByKey, hl, ↓reduceIte]
+      exact getKey_ne_dict ds k
+  | s :: q, c, ds, hp, hq, hl => by
+      obtain ⟨j, rfl⟩ := hp s (by simp)
+      have hp' : KeyPath q := fun t ht => hp t (by simp [ht])
+      cases c with
+      | cell a => simp [Val.at, Val.child] at hq
+      | list cs => simp [Val.at, Val.child] at hq
+      | tuple cs => simp [Val.at, Val.child] at hq
+      | dict cs =>
+        cases hj : cs.lookup j with
+        | none => simp [Val.at, Val.child, hj] at hq
+        | some x =>
+          have hx : x.at q = some (.dict ds) := by simpa [Val.at, Val.child, hj] using hq
+          by_cases hk : sortStr (keysOf cs) = keys
+          · simp only [itemByKey, hk, ↓reduceIte]; exact getKey_ne_dict cs k
+          · simp only [itemByKey, hk, ↓reduceIte, itemByKeyKVs_eq_map]
+            intro e
+            simp only [Val.dict.injEq] at e
+            have := congrArg (fun l => List.lookup j l) e
+            simp only [lookup_mapKW', hj, Option.map_some, Option.some.injEq] at this
+            exact itemByKey_searched k keys q x ds hp' hx hl this
 
 end Pyg
